@@ -538,3 +538,20 @@ Definition C06_frame_discipline_stmt : Prop :=
   forall prelude s0 s fuel e k,
     boot_with prelude = Some s0 -> evals s0 s -> eval Builtins.other_builtin fuel e s = RPanic k ->
     k <> 10 /\ k <> 14 /\ k <> 40 /\ k <> 44.
+
+(* towards the static half of C06_frame_discipline_stmt: the two places where the compiler takes its indices
+   from.  The operand emitted for a variable reference in lambda l is below len (l_envmap l) when it is a
+   lexical slot; the envmap the compiler builds for a lambda expression has argument entries that are
+   arguments ([arg_okb]) and IofEnvironment entries below the size of the ENCLOSING lambda's envmap, i.e. of
+   the environment CLOSURE runs with ([iof_okb]).  (Propagating them to every stored code object is the
+   compile walk named in docs/WP-c06e.md.) *)
+Theorem C06_location_operand_lex : forall l sym s v s',
+  location_operand l sym s = ROk v s' -> lex_slotb (len (l_envmap l)) v = true.
+Proof. exact location_operand_lex. Qed.
+Print Assumptions C06_location_operand_lex.
+
+Theorem C06_lambda_from_iof_static : forall args internal iof free va,
+  arg_okb (lambda_from_iof args internal iof free va) = true /\
+  iof_okb (len (l_envmap iof)) (l_envmap (lambda_from_iof args internal iof free va)) = true.
+Proof. exact lambda_from_iof_static. Qed.
+Print Assumptions C06_lambda_from_iof_static.
